@@ -78,6 +78,10 @@ func (g *gzipResponseWriter) passThrough() {
 }
 
 func (g *gzipResponseWriter) Write(b []byte) (int, error) {
+	// As in net/http, the first Write decides an implicit 200; a later WriteHeader is ignored
+	if !g.wroteHeader {
+		g.WriteHeader(http.StatusOK)
+	}
 	// Once compression was given up, stream directly
 	if g.bufferExceeded {
 		return g.ResponseWriter.Write(b)
